@@ -161,7 +161,7 @@ func drawSpecs(t *rapid.T, n int) []Spec {
 			d := specgen.GenHostileDoc(t, true)
 			out = append(out, Spec{Name: fmt.Sprintf("hostile%d", i), Text: string(d.Render())})
 		default:
-			comps := specgen.GenComponents(t, specgen.Options{MaxDepth: 3, Validators: true, Sums: true, AllOf: true, Refs: true, Nullable: true, Maps: true, Docs: true}, rapid.IntRange(2, 8).Draw(t, "ncomp"))
+			comps := specgen.GenComponents(t, specgen.Options{MaxDepth: 3, Validators: true, Sums: true, AllOf: true, Refs: true, Nullable: true, Maps: true, Docs: true, DocsDense: rapid.IntRange(0, 2).Draw(t, "densedocs") == 0}, rapid.IntRange(2, 8).Draw(t, "ncomp"))
 			var d specgen.Doc
 			d.Components = comps
 			for j, n := range comps.Names() {
@@ -289,8 +289,26 @@ func TestHistories(t *testing.T) {
 	u := vk.New(t, "C10", "histories")
 	defer u.Close()
 	pool := corpus(vk.N(40_000, 120_000))
-	vk.Rapid(u, vk.N(8, 600), nil, drawHistory(pool), func(h History) *vk.Finding {
+	// always-run history over two documents whose items are nearly all described (shared
+	// multi-paragraph texts) and half of them deprecated: the comment path of every template
+	dense := rapid.Custom(func(t *rapid.T) Spec {
+		d := specgen.GenExchangeDoc(t, specgen.ExchangeOptions{Formats: true, TimeFormat: "date-time", Validators: true, Docs: true, DenseDocs: true})
+		return Spec{Name: "dense-docs", Text: string(d.Render())}
+	})
+	shard, _ := vk.Shard()
+	regress := []History{{
+		Specs: []Spec{dense.Example(int(vk.Seed())*64 + shard*2), dense.Example(int(vk.Seed())*64 + shard*2 + 1)},
+		Actions: []Action{{Kind: "procs", Procs: 16}, {Kind: "gen", I: 0}, {Kind: "gen", I: 1}, {Kind: "pair", I: 0, J: 1},
+			{Kind: "procs", Procs: 2}, {Kind: "gen", I: 0}, {Kind: "pair", I: 1, J: 1}, {Kind: "procs", Procs: 16}, {Kind: "pair", I: 0, J: 0}, {Kind: "gen", I: 1}},
+	}}
+	regress[0].Specs[1].Name = "dense-docs-2"
+	vk.Rapid(u, vk.N(24, 600), regress, drawHistory(pool), func(h History) *vk.Finding {
 		u.Sample(map[string]any{"specs": specNames(h.Specs), "actions": h.Actions})
+		for _, sp := range h.Specs {
+			if strings.Contains(sp.Text, `"deprecated":true`) && strings.Contains(sp.Text, `\n`) {
+				u.Label("document with deprecated items and multi-line descriptions")
+			}
+		}
 		return runHistory(u, h)
 	})
 }
